@@ -281,3 +281,38 @@ def s_itchain(g, depth):
     for _ in range(r.range(1, 3)):
         chain += r.choice([".map(|v| v * 2)", ".filter(|v| v > 1)", ".map(|v| v + 1)", ".filter(|v| v % 2 == 0)"])
     return ["print(%s.collect());" % chain]
+
+
+def map_size_programs(rng):
+    """maps of every size class - literals from 0 to the 255-entry limit and one beyond, with distinct, repeated and
+    mixed-kind keys, and maps grown and shrunk by insert / remove across the table's growth points - probed by len, get,
+    has_key and an order-free sum"""
+    r = rng
+    out = []
+    sizes = [0, 1, 2, 7, 8, 9, 31, 63, 64, 65, 100, 126, 127, 128, 129, 130, 191, 192, 200, 254, 255, 256]
+    for n in sizes:
+        for style in ("num", "str", "mixed", "dups"):
+            def key(i):
+                if style == "num":
+                    return str(i)
+                if style == "str":
+                    return "\"k%d\"" % i
+                if style == "dups":
+                    return str(i % max(1, (n + 1) // 2))
+                return [str(i), "\"s%d\"" % i, "(%d, \"t\")" % i, "%d.5" % i][i % 4]
+            lit = "{" + ", ".join("%s: %d" % (key(i), i * i) for i in range(n)) + "}"
+            probes = sorted(set([0, 1, n // 2, n - 2, n - 1, n]) & set(range(0, n + 1)))
+            L = ["var m = %s;" % lit, "print(m.len());"]
+            for i in probes:
+                L.append("print([m.has_key(%s), m.get(%s)]);" % (key(i), key(i)))
+            L += ["var total = 0;", "for v in m.values() { total = total + v; }", "print(total);", "print(m.keys().len());",
+                  "var after = \"intact\";", "print(after);"]
+            out.append(("mapsize/%s/%d" % (style, n), "\n".join(L) + "\n"))
+    for n in (10, 100, 200, 400, 1000):
+        step = r.choice([1, 3, 7])
+        L = ["var m = {};", "for i in 0..%d { m.insert(i * %d, [i]); }" % (n, step), "print(m.len());",
+             "for i in 0..%d { if i %% 3 == 0 { m.remove(i * %d); } }" % (n, step), "print(m.len());",
+             "var hit = 0; for i in 0..%d { if m.has_key(i * %d) { hit = hit + m.get(i * %d)[0]; } }" % (n, step, step), "print(hit);",
+             "for i in 0..%d { m.insert(\"s${i}\", i); }" % n, "print(m.len());", "print(m.get(\"s%d\"));" % (n - 1)]
+        out.append(("mapgrow/%d" % n, "\n".join(L) + "\n"))
+    return out
